@@ -35,8 +35,12 @@ structure Node where
   commit  : Nat := 0
   /-- entries `≤ handed` have been processed by raft's FSM goroutine -/
   handed  : Nat := 0
-  /-- `Store.fsmIdx` / `fsmTarget.currentTarget` -/
+  /-- `Store.fsmIdx` (an atomic; what `fsmWaitIndex` loads) -/
   fsmIdx  : Nat := 0
+  /-- `fsmTarget.currentTarget` (the ReadyTarget the wait subscribes to). `fsmApply` and
+  `fsmRestore` update both; `Open` resets the target but, on the fast-restart path, sets
+  `fsmIdx` to the snapshot index without signalling -/
+  tgt     : Nat := 0
 deriving Repr, DecidableEq
 
 /-- result of `s.raftLog.GetLog(i, &l)`: `none` = outside the log (never asked for by
@@ -69,14 +73,26 @@ def scan (n : Node) : Nat → Nat
       | some (some .command) => i + 1
       | some (some _) => scan n i
 
-/-- the index `waitForLinearizableRead` subscribes to -/
-def target (n : Node) : Nat := scan n n.commit
+/-- the index `waitForLinearizableRead` subscribes to: the read index was taken earlier (at a
+state whose commit index is `readIndex`); the scan runs, after VerifyLeader and the term
+re-check, on the then current state `scanNode` -/
+def targetAt (scanNode : Node) (readIndex : Nat) : Nat := scan scanNode readIndex
+
+/-- the special case where nothing happened in between -/
+def target (n : Node) : Nat := targetAt n n.commit
 
 /-- the index subscribed to before the `fix:` commit: the read index itself -/
 def targetOld (n : Node) : Nat := n.commit
 
 /-- has the subscription channel been closed (`target <= currentTarget`) -/
-def reached (n : Node) (tgt : Nat) : Bool := decide (tgt ≤ n.fsmIdx)
+def reached (n : Node) (t : Nat) : Bool := decide (t ≤ n.tgt)
+
+/-- the ReadyTarget agrees with the FSM index (true once `fsmApply`/`fsmRestore` ran in this
+process; `waitForLinearizableRead` only gets this far after a strong read of the current
+term, i.e. after an `fsmApply` since `Open`) -/
+def Synced (n : Node) : Prop := n.tgt = n.fsmIdx
+
+instance (n : Node) : Decidable (Synced n) := by unfold Synced; exact inferInstance
 
 /-! ### events of one node's log/FSM -/
 
@@ -87,6 +103,8 @@ inductive Ev
   | fsm                  -- runFSM processes the next committed entry
   | restore (i : Nat)    -- a snapshot with last index i is installed (fsmRestore)
   | compact (k : Nat)    -- log entries ≤ k are deleted after a snapshot
+  | reopen (li : Nat)    -- the process restarts (`Store.Open`) with its latest snapshot at index li
+                         -- (fast path; nothing above a node's latest snapshot is ever compacted)
 deriving DecidableEq, Repr
 
 def padTo (l : List (Option EType)) (i : Nat) : List (Option EType) :=
@@ -105,11 +123,13 @@ def Ev.enabled (n : Node) : Ev → Bool
   | .fsm => decide (n.handed < n.commit)
   | .restore i => decide (n.handed ≤ i)
   | .compact k => decide (k ≤ n.handed)
+  | .reopen li => decide (li ≤ n.handed) && (n.log.drop li).all (fun x => x.isSome)
 
 /-- `runFSM` takes the next committed entry: only a command entry reaches `fsmApply` -/
 def applyFsm (n : Node) : Node :=
   match n.typeAt (n.handed + 1) with
-  | some (some .command) => { n with handed := n.handed + 1, fsmIdx := max n.fsmIdx (n.handed + 1) }
+  | some (some .command) =>
+    { n with handed := n.handed + 1, fsmIdx := n.handed + 1, tgt := max n.tgt (n.handed + 1) }
   | _ => { n with handed := n.handed + 1 }
 
 def applyRaw (n : Node) : Ev → Node
@@ -118,12 +138,16 @@ def applyRaw (n : Node) : Ev → Node
   | .commit c => { n with commit := c }
   | .fsm => applyFsm n
   | .restore i =>
-    { n with log := padTo n.log i, commit := max n.commit i, handed := i, fsmIdx := max n.fsmIdx i }
+    { n with log := padTo n.log i, commit := max n.commit i, handed := i, fsmIdx := i, tgt := max n.tgt i }
   | .compact k => { n with log := compactLog n.log k }
+  | .reopen li => { n with commit := li, handed := li, fsmIdx := li, tgt := 0 }
 
 def applyEv (n : Node) (e : Ev) : Node := if e.enabled n then applyRaw n e else n
 
 def run (n : Node) (es : List Ev) : Node := es.foldl applyEv n
+
+/-- no process restart among the events (a restart ends every read in flight) -/
+def NoReopen (es : List Ev) : Prop := ∀ e ∈ es, ∀ li, e ≠ .reopen li
 
 /-- let the FSM goroutine process everything that is committed -/
 def drain (n : Node) : Node := run n (List.replicate (n.commit - n.handed) Ev.fsm)
@@ -142,6 +166,8 @@ structure LinEnv where
   node           : Node     -- log/commit/FSM state when `s.raft.CommitIndex()` is read
   verifyOk       : Bool     -- `s.VerifyLeader() == nil`
   termAfter      : Nat      -- `s.raft.CurrentTerm()` after VerifyLeader
+  /-- the state when `s.fsmWaitIndex(readIndex)` scans the log (after the term re-check) -/
+  scanNode       : Node
   /-- the FSM state at the moment the subscription is decided (channel closed or timeout) -/
   later          : Node
 deriving Repr
@@ -162,14 +188,14 @@ def waitLin (e : LinEnv) : LinOut :=
   else if !e.isLeader then .notLeader
   else if !e.ready then .notReady
   else
-    let tgt := target e.node               -- readIndex := CommitIndex(); fsmWaitIndex(readIndex)
+    let readIndex := e.node.commit         -- readIndex := s.raft.CommitIndex()
     if !e.verifyOk then .verifyErr
     else if e.termAfter ≠ e.readTerm then .staleRead
-    else if reached e.later tgt then .ok else .timeout
+    else if reached e.later (targetAt e.scanNode readIndex) then .ok else .timeout
 
 /-! ### line protocol
 Every op names a node. `reset` → `ok`.
-`N append T` | `N trunc K` | `N commit C` | `N fsm` | `N restore I` | `N compact K`
+`N append T` | `N trunc K` | `N commit C` | `N fsm` | `N restore I` | `N compact K` | `N reopen LI`
    → `ok`, or `bad-op` when the event's guard is false;
 `N drain` → `ok`; `N fsmidx` → number; `N target` → number;
 `N lin readTerm strongTerm leader ready verifyOk termAfter` → outcome of waitLin with
@@ -237,6 +263,11 @@ def step (d : DState) (line : String) : DState × String :=
     match x.toNat? with
     | some x => doEv d k (.compact x)
     | none => (d, "bad-op")
+  | [k, "reopen", x] =>
+    match x.toNat? with
+    | some x => doEv d k (.reopen x)
+    | none => (d, "bad-op")
+  | [k, "tgt"] => (d, toString (getNode d k).tgt)
   | [k, "drain"] => (setNode d k (drain (getNode d k)), "ok")
   | [k, "fsmidx"] => (d, toString (getNode d k).fsmIdx)
   | [k, "target"] => (d, toString (target (getNode d k)))
@@ -244,7 +275,7 @@ def step (d : DState) (line : String) : DState × String :=
     match rt.toNat?, st.toNat?, parseBool ld, parseBool rd, parseBool vf, ta.toNat? with
     | some rt, some st, some ld, some rd, some vf, some ta =>
       let n := getNode d k
-      (d, outStr (waitLin ⟨rt, st, ld, rd, n, vf, ta, n⟩))
+      (d, outStr (waitLin ⟨rt, st, ld, rd, n, vf, ta, n, n⟩))
     | _, _, _, _, _, _ => (d, "bad-op")
   | _ => (d, "bad-op")
 
